@@ -52,7 +52,10 @@ def case_strategy(draw):
         ncat = 2 + (2 if rands == "both" else 1)
         need = (0,) if rands == "unk" else (0, 2)
         opts = {"rands": rands}
-    if huge:
+    allsky = draw(st.integers(0, 14)) == 14  # patches as large as hemispheres
+    if allsky:
+        scene = draw(gen.allsky_scene(theta_max, edges, ncat, need_z=need))
+    elif huge:
         scene = draw(gen.lattice_scene(draw(st.sampled_from([128, 129, 256, 257, 300])), extra=10, ncat=ncat, edges=edges, need_z=need, theta_max=theta_max))
     else:
         scene = draw(gen.scene_case(theta_max, edges, ncat, need_z=need, **size))
@@ -237,6 +240,8 @@ def compare(case, cfg, cfs, ck: Checker):
             if g1.shape != sw1.shape or not np.allclose(g1, sw1, rtol=1e-12, atol=0) or not np.allclose(g2, sw2, rtol=1e-12, atol=0):
                 ck.fail(f"sum_weights:{'auto' if auto else 'cross'}", f"{name}: got {g1.tolist()} / {g2.tolist()}, expected {sw1.tolist()} / {sw2.tolist()}")
     ck.nontrivial = nontrivial
+    if case["scene"].get("spacing") == np.pi:
+        ck.cls("all-sky-patches")
     if case["scene"].get("derived"):
         ck.cls("centres-derived-from-first-catalog")
     ck.cls(f"mode:{case['mode']}", f"unit:{c['unit']}", f"method:{c['method']}", f"closed:{closed}", f"patches:{npatch if npatch < 10 else ('>=10' if npatch < 100 else '>=128')}", f"scales:{ns}")
